@@ -11,6 +11,7 @@ pub mod arena;
 pub mod gen_types;
 pub mod shape;
 pub mod suite_bytes;
+pub mod suite_emplace;
 
 // ---------------------------------------------------------------------------------------------
 // PRNG, hex
@@ -373,4 +374,76 @@ pub unsafe fn default_fn<T: FlatDefault + ?Sized>(bytes: &mut [u8]) -> Result<()
 /// run `f`, mapping a panic to `None`
 pub fn guarded<R>(f: impl FnOnce() -> R) -> Option<R> {
     std::panic::catch_unwind(std::panic::AssertUnwindSafe(f)).ok()
+}
+
+// ---------------------------------------------------------------------------------------------
+// parsing initialisers back (replay, corpus)
+// ---------------------------------------------------------------------------------------------
+fn d_tokens(s: &str) -> Vec<String> {
+    let mut out = vec![];
+    let mut cur = String::new();
+    for c in s.chars() {
+        match c {
+            '(' | ')' => {
+                if !cur.is_empty() {
+                    out.push(std::mem::take(&mut cur));
+                }
+                out.push(c.to_string());
+            }
+            ' ' => {
+                if !cur.is_empty() {
+                    out.push(std::mem::take(&mut cur));
+                }
+            }
+            _ => cur.push(c),
+        }
+    }
+    if !cur.is_empty() {
+        out.push(cur);
+    }
+    out
+}
+fn take_hexes(t: &[String], i: &mut usize) -> Vec<Vec<u8>> {
+    let mut v = vec![];
+    while t[*i] != "(" && t[*i] != ")" {
+        v.push(unhex(&t[*i]));
+        *i += 1;
+    }
+    v
+}
+fn parse_d_at(t: &[String], i: &mut usize) -> D {
+    assert_eq!(t[*i], "(");
+    let head = t[*i + 1].clone();
+    *i += 2;
+    let d = match head.as_str() {
+        "raw" => { let b = unhex(&t[*i]); *i += 1; D::Raw(b) }
+        "ve" => D::VecEmpty,
+        "va" => D::VecArr(take_hexes(t, i)),
+        "vi" => D::VecIter(take_hexes(t, i)),
+        "sf" => { let b = unhex(&t[*i]); *i += 1; D::StrFrom(b) }
+        "fe" => D::FlexEmpty,
+        "fi" => { let mut v = vec![]; while t[*i] != ")" { v.push(parse_d_at(t, i)); } D::FlexIter(v) }
+        "us" => { let f = take_hexes(t, i); let l = parse_d_at(t, i); D::Struct(f, Box::new(l)) }
+        "ue" => {
+            let idx: usize = t[*i].parse().unwrap();
+            *i += 1;
+            let f = take_hexes(t, i);
+            if t[*i] == ")" { D::Enum(idx, f, None) } else { let l = parse_d_at(t, i); D::Enum(idx, f, Some(Box::new(l))) }
+        }
+        "def" => D::Default,
+        h => panic!("bad initialiser head {h}"),
+    };
+    assert_eq!(t[*i], ")");
+    *i += 1;
+    d
+}
+/// parse one or more initialisers from a text
+pub fn parse_ds(s: &str) -> Vec<D> {
+    let t = d_tokens(s);
+    let mut i = 0;
+    let mut out = vec![];
+    while i < t.len() {
+        out.push(parse_d_at(&t, &mut i));
+    }
+    out
 }
